@@ -606,3 +606,17 @@ def replay(ctx, data):
         print("code :", c, "\nmodel:", m)
         if c != m:
             ctx.violation("replayed case: model and code still disagree", r)
+
+
+
+
+# ----------------------------------------------------------------------------------------------- source tie (DESIGN §4.2)
+# the definitions of Gen/DecisionsLib.v this property's Props file ties to the model (`*_generated_eq_model`): when
+# tools/gen/decisions_lib.py could not translate the current source text the tie is broken and reported
+GEN_LIB_TARGETS = ['max_context', 'multi_line_with_matcher', 'slice_needs_transcoding']
+_run_checks = run
+
+
+def run(ctx):
+    _run_checks(ctx)
+    vlib.report_gen_drift(ctx, "decisions_lib", GEN_LIB_TARGETS, bool(ctx.violations))
